@@ -66,13 +66,13 @@ Proof. intros Hle. induction Hle as [|g2 Hle IH]; intros H; [exact H|]. apply re
 
 (* C09: Unmarshal of a concatenation whose pieces decode one after another gives exactly the sequential result *)
 Theorem unmarshal_concat s progs idx a b t0 t1 t2 :
-  gen_all s = GOk progs -> tdec_applies s = true -> bytes_ok a -> bytes_ok b ->
+  gen_all s = GOk progs -> tdec_applies_at s idx = true -> bytes_ok a -> bytes_ok b ->
   pico_unmarshal progs idx a t0 = (None, t1) -> pico_unmarshal progs idx b t1 = (None, t2) ->
   pico_unmarshal progs idx (a ++ b) t0 = (None, t2).
 Proof.
   intros Hgen Happ Ha Hb H1 H2.
-  pose proof (T_dec_b s progs idx a t0 Hgen Happ Ha) as Ta. pose proof (T_dec_b s progs idx b t1 Hgen Happ Hb) as Tb.
-  pose proof (T_dec_b s progs idx (a ++ b) t0 Hgen Happ (bytes_ok_app a b Ha Hb)) as Tab. cbv zeta in *.
+  pose proof (T_dec_at s progs idx a t0 Hgen Happ Ha) as Ta. pose proof (T_dec_at s progs idx b t1 Hgen Happ Hb) as Tb.
+  pose proof (T_dec_at s progs idx (a ++ b) t0 Hgen Happ (bytes_ok_app a b Ha Hb)) as Tab. cbv zeta in *.
   rewrite H1 in Ta. rewrite H2 in Tb. cbn [fst snd] in *.
   destruct (ref_decode (S (S (S (length a)))) s idx a t0) as [ya|] eqn:Ea; [|congruence]. destruct Ta as [_ <-].
   destruct (ref_decode (S (S (S (length b)))) s idx b t1) as [yb|] eqn:Eb; [|congruence]. destruct Tb as [_ <-].
